@@ -145,6 +145,13 @@ func (e *Enc) call(cur *cursor, v ssa.Value, c *ssa.CallCommon, pos token.Pos) {
 func (e *Enc) staticCall(cur *cursor, v ssa.Value, callee *ssa.Function, binds []Val, args []Val, sig *types.Signature, pos token.Pos, c *ssa.CallCommon) {
 	name, local := e.m.fnName[callee]
 	if !local {
+		if e.contract != nil {
+			for _, r := range e.contract.Externals {
+				if !r.Allowed[callee.String()] {
+					e.oblige(cur.guard, "extern", fmt.Sprintf("%s#%d", r.Label, e.ordinal("extern:"+r.Label)), "false", r.Props, pos, "call to "+callee.String()+", which is not among the library functions this function may use: "+r.Src)
+				}
+			}
+		}
 		e.siteClauses(cur, callee.String(), args, pos)
 		if e.external(cur, v, callee, args, sig, pos, c) {
 			e.ghostAfter(cur, callee.String(), args, v)
@@ -253,6 +260,22 @@ func (e *Enc) invoke(cur *cursor, v ssa.Value, c *ssa.CallCommon, args []Val, po
 			e.setResults(cur, v, sig, []string{fmt.Sprintf("(%s %s)", fn, recv)})
 			return
 		}
+	}
+	if mname == "Token" && sig.Results().Len() == 1 && sig.Params().Len() == 0 {
+		// the position accessor of AST nodes: a function of the node (nodes are never modified after they
+		// are built: evaluation is proved not to write AST fields, and the parser only fills fresh nodes)
+		rs := e.m.sortOf(sig.Results().At(0).Type())
+		e.declFun("im_Token", []string{"Any"}, rs)
+		t := fmt.Sprintf("(im_Token %s)", recv)
+		e.setResults(cur, v, sig, []string{t})
+		if ta := e.tinvTerm(cur.st, t, sig.Results().At(0).Type()); ta != "true" {
+			e.assume(cur.guard, ta)
+		}
+		if ty := e.typeAssume(cur.st, t, sig.Results().At(0).Type()); ty != "true" {
+			e.assume(cur.guard, ty)
+		}
+		e.assumedCallees["AST accessor Token() is a function of the node"] = true
+		return
 	}
 	role := "method:" + mname
 	if ct, ok := e.m.spec.FuncTypes[role]; ok {
